@@ -39,6 +39,11 @@ def glue(ctx, cases, what, only=False, timeout=600):
     return r if ctx.need_go_ok(r, what) else None
 
 
+def wire(ctx, cases, what, timeout=600):
+    r = ctx.gotest(".", ["main/c10wire_test.go"], "^TestVerifC10Wire$", env={"VERIF_IN": cases}, timeout=timeout)
+    return r if ctx.need_go_ok(r, what) else None
+
+
 def take(ctx, r, sub):
     ctx.take_failures(r, sub)
     for e in r.of_kind("modelbug")[:3]:
@@ -60,10 +65,15 @@ def run(ctx):
         "crypto/tls accepts two things the grammar forbids: plaintext records longer than 2^14 and session ids longer than 32 bytes; such input is malformed and fabio may reject it (not judged)",
         "non-termination: every extraction runs under a watchdog (5 s, tried twice, for a pure function of < 20 KB input); not returning is a violation of 'it is rejected instead'",
         "glue: SNIProxy.ServeTCP is driven over loopback with well-formed hellos (the specification's and real ones up to ~16 KB) in 1-3 segments; pauses between segments are a hint only, judged are the lookup name and the bytes the upstream receives",
+        "routing: the specification's table has routes for example.com and a.example; server names that differ from a routed host by a control character, a line break, a non-UTF-8 byte "
+        "or a tail of DEL bytes have no route, one that differs by letter case has; checked on lookupHostFn / lookupHostMatcher of package main and through tcp.Server + SNIProxy wired with them",
+        "sessions (Sessions.tla, shared with C09): up to three connections with small and large hellos through one SNIProxy instance; every connection is routed by the name in its own hello, as soon as that hello is complete",
         "hellos spanning several TLS records are outside the statement ('never exceeds the first TLS record') and not judged; only Go's TLS client generates real hellos",
     ]
+    from checks import c09
+    sfuts = c09.sessions_start(ctx, "c10")
     sink = os.path.join(ctx.tmp, "c10.gen")
-    mc = ctx.tlc("ClientHello_MC", cfg_text=CFG % ctx.pick(1, 2), workers=6, json_sink=sink, timeout=ctx.pick(240, 900),
+    mc = c09.tlc_now(ctx, "ClientHello_MC", cfg_text=CFG % ctx.pick(1, 2), workers=6, json_sink=sink, timeout=ctx.pick(240, 900),
                  coverage=ctx.thorough)
     ctx.log("ClientHello: %d generated, %d distinct, %.0fs" % (mc.generated, mc.distinct, mc.wall))
     if not ctx.need_tlc_ok(mc, "ClientHello"):
@@ -134,6 +144,28 @@ def run(ctx):
         ctx.inconclusive("glue: no verdict: %s" % h.get("msg"))
     take(ctx, rg, "c10")
 
+    # the wiring in package main: lookupHostFn / lookupHostMatcher in front of the real routing table and SNIProxy
+    fw = os.path.join(ctx.tmp, "c10.wire")
+    small = [c for c in wfn if len(c["bytes"]) < 2000]
+    vf.write_ndjson(fw, small)
+    rw = wire(ctx, fw, "C10 wiring")
+    if rw is None:
+        return
+    w = rw.summary
+    ctx.log("wiring (package main): %d well-formed hellos looked up, matched and sent through lookupHostFn + SNIProxy: %d routed by their name, %d without a route, %d failed"
+            % (w["cases"], w["routed"], w["no_route"], w["fails"]))
+    if w["routed"] < 2 or w["no_route"] < 4:
+        ctx.inconclusive("wiring: the universe offers too few routed / unrouted names (%d / %d)" % (w["routed"], w["no_route"]))
+    ctx.cover("wire", traces_validated_against_impl=w["cases"], evaluations=w["evaluations"])
+    for h in rw.of_kind("hang")[:3]:
+        ctx.inconclusive("wiring: no verdict: %s" % h.get("msg"))
+    take(ctx, rw, "c10")
+
+    # histories of several connections through one SNIProxy instance (shared with C09)
+    from checks import c09
+    if not c09.sessions(ctx, "c10", sfuts):
+        return
+
     # binding self-test: corrupted expectations must be rejected by the harness
     wf = [c for c in cases if c["wf"] and c["wfname"]]
     if not wf:
@@ -156,6 +188,19 @@ def run(ctx):
 def replay(ctx, rp):
     one = os.path.join(ctx.tmp, "c10.replay")
     vf.write_ndjson(one, [rp["replay"]["case"]])
+    if "sched" in rp["replay"]["case"]:
+        from checks import c09
+        r = c09.go_sessions(ctx, one, "C10 replay")
+        if r is not None:
+            ctx.cover(evaluations=r.summary.get("connections", 0), traces_validated_against_impl=1)
+            take(ctx, r, "sessions")
+        return
+    if "route" in rp["replay"]["case"] and "table" in rp["replay"]["case"] and rp.get("features", {}).get("part") == "wire":
+        r = wire(ctx, one, "C10 replay")
+        if r is not None:
+            ctx.cover(evaluations=r.summary.get("evaluations", 0), traces_validated_against_impl=1)
+            take(ctx, r, "c10")
+        return
     if rp["replay"]["case"].get("tpl") == "glue":
         r = glue(ctx, one, "C10 replay", only=True, timeout=300)
         if r is not None:
